@@ -653,9 +653,9 @@ pub fn main(kind: Kind, args: &Args) -> Report {
     }
     let n_cases = match (kind, args.thorough()) {
         (Kind::C06, false) => 3000,
-        (Kind::C06, true) => 20000,
+        (Kind::C06, true) => 150000,
         (_, false) => 2000,
-        (_, true) => 10000,
+        (_, true) => 80000,
     };
     let deadline = Instant::now() + Duration::from_secs(args.budget_s(150, 1500));
     let seed = args.seed;
